@@ -320,19 +320,23 @@ func genSched(r *kit.Rand, i int) string {
 
 func generate(out *kit.Out, f kit.Flags) {
 	r := kit.NewRand(f.Seed)
+	var nSplice, nTick, nSched int // each kind cycles through its own directed shapes
 	for i := 0; i < f.N; i++ {
 		id := fmt.Sprintf("g%d", i)
 		switch {
 		case i%10 < 5:
-			emit(out, id, []string{genSplice(r.Fork(), i/2)})
+			emit(out, id, []string{genSplice(r.Fork(), nSplice)})
+			nSplice++
 		case i%10 < 7:
 			var ls []string
 			for k := 0; k < 8; k++ {
-				ls = append(ls, genTick(r.Fork(), i+k))
+				ls = append(ls, genTick(r.Fork(), nTick))
+				nTick++
 			}
 			emit(out, id, ls)
 		default:
-			emit(out, id, []string{genSched(r.Fork(), i/3)})
+			emit(out, id, []string{genSched(r.Fork(), nSched)})
+			nSched++
 		}
 	}
 	nreal := 2
